@@ -6,6 +6,7 @@ import SimVerif.Drv.Kernel
 import SimVerif.Lemmas.LifetimeKernel
 import SimVerif.Lemmas.HandlersTcpFns
 import SimVerif.Lemmas.HandlersUdp
+import SimVerif.Lemmas.NetTables
 
 namespace SimVerif
 
@@ -36,6 +37,14 @@ theorem forwardPkt_detached (p : KParams) (f : Nat) (pk : Pkt) (s : KSt) (name :
     forwardPkt p (f + 1) pk s = s := by
   rw [forwardPkt]
   simp only [hh, h1, if_true, h2]
+
+/-- the same for the hop name of forwarder `g` itself: `fwdHop g` starts with "@" and decodes to
+    `g` (`Hs.fwdHop_decode`), so no hypothesis about decoding is left -/
+theorem forwardPkt_detached_fwdHop (p : KParams) (f : Nat) (pk : Pkt) (s : KSt) (g : Nat) (rest : List String)
+    (hh : pk.hops = fwdHop g :: rest) (h2 : s.net.fwdTarget g = none) :
+    forwardPkt p (f + 1) pk s = s :=
+  forwardPkt_detached p f pk s (fwdHop g) rest hh (Hs.fwdHop_startsWith g)
+    (by rw [Hs.fwdHop_decode]; exact h2)
 
 /-- a queue's tail-drop notification for a segment whose sender's forwarder is detached vanishes -/
 theorem applyQEffs_dropCb_detached (p : KParams) (qi : Nat) (pk : Pkt) (s : KSt) (fid : Nat)
